@@ -111,7 +111,7 @@ def subject(case):
             if case.get("int_valued"):
                 vals = np.round(vals)  # integer-valued observations (counts)
             for i in case["marks"]:
-                vals[2 + i % (n - 4)] = np.nan
+                vals[2 + i % (n - 4)] = np.nan if spec.get("missing_values") is None else spec["missing_values"]
         z = gen.build_series(vals, case["start"], case["index_kind"])
         multivariate = spec["kind"] in ("hampel", "imputer", "cos", "log", "scaler") and case["as_frame"]
         if multivariate:
